@@ -189,6 +189,18 @@ theorem sim_all_done_when_feasible (w : World) (prog : Program) (inp : Inputs) (
   · exact md_pairwise_of_calendar start hv a (ds.drop a)
       (sim_history_drop_dates inp start hcal N ds hd a) y hyr
 
+/-- **C06 "never surveys a site where it is not deployed" in the integrated simulation**: a site whose
+planner guard is never true (method not deployed there, no survey frequency, no deployment year or month)
+has no completed survey counted in any year, at every horizon, for every world, program and inputs
+(mobile and stationary methods alike; no calendar hypothesis) -/
+theorem sim_not_deployed_never_surveyed (w : World) (prog : Program) (inp : Inputs) (m : Nat) (c : MethodCfg)
+    (hc : prog[m]? = some c) (hr : c.role ≠ .followUp) (hnd : (schedCfg c).sites.Nodup) (i : Nat)
+    (hg : ∀ dt ps, Sched.guardK (schedCfg c).kind ((schedCfg c).P i) dt ps = false) (N : Nat) :
+    ∀ y, Sched.done ((((simState w prog inp N).ms.getD m {}).sched).pl i) y = 0 := by
+  obtain ⟨ds, _, hs⟩ := sim_sched_runDays w prog inp m c hc hr N
+  rw [hs]
+  exact (Sched.not_deployed_never_planned (schedCfg c) hnd i hg ds ⟨inp.date N, fun _ => .untouched⟩).2
+
 /-- non-vacuity: the mobile OGI method of the example program of `Props/Sim.lean` meets the hypotheses of
 `sim_done_le_required` (mobile, not a follow-up method, distinct sites, a valid start date) -/
 example : (schedCfg exOGI).kind = .routine ∧ (schedCfg exOGI).sites.Nodup ∧ exOGI.role ≠ .followUp ∧
